@@ -282,6 +282,28 @@ def work_cross(shard):
                                'page %s: U+%s -> %r when loaded alone, %r when page %s was loaded before' % (
                                    second, ','.join('%04X' % ord(c) for c in u), b1, b2, first), case)
         part.classes.add('cross/%s-after-%s' % ('dbcs' if ref.dbcs else 'sbcs', 'dbcs' if ref_for(first).dbcs else 'sbcs'))
+        # one loaded definition used for two Codepage objects: the definition is the caller's and is not changed;
+        # the second object converts like the first
+        d = read_codepage(second)
+        snapshot = dict(d)
+        cpm.Codepage(d, box_protect=bp)
+        if d != snapshot:
+            changed = sorted(k for k in snapshot if d.get(k) != snapshot[k])[:4]
+            part.violation('cross/definition-changed-by-use/%s' % ('dbcs' if ref.dbcs else 'sbcs'),
+                           'building a Codepage from the definition of page %s changed the definition at %r' % (second, changed), case0)
+        again = cpm.Codepage(d, box_protect=not bp)
+        other = cpm.Codepage(read_codepage(second), box_protect=not bp)
+        for u in sorted(set(ref.nfc.values())):
+            part.n += 1
+            case = dict(case0, cluster=[ord(c) for c in u], reuse=True)
+            ok1, b1 = _call(part, 'cross', case, other.unicode_to_bytes, u)
+            ok2, b2 = _call(part, 'cross', case, again.unicode_to_bytes, u)
+            if ok1 and ok2 and b1 != b2:
+                part.violation('cross/second-use-of-a-definition-differs/%s' % ('dbcs' if ref.dbcs else 'sbcs'),
+                               'page %s: U+%s -> %r from a fresh definition, %r from a definition that was used before' % (
+                                   second, ','.join('%04X' % ord(c) for c in u), b1, b2), case)
+                break
+        part.classes.add('cross/definition-reused')
     _fresh_module()
     _PAGES.clear()
     part.traces = part.n
